@@ -8,6 +8,10 @@ Models, as coded,
 * `FlowIRConcrete.get_platform_environment / get_environment` (flowir.py 5502-5590): `platEnv`, `getEnv`;
 * `FlowIRExperimentConfiguration.defaultEnvironment / environmentWithName / environmentForNode`
   (conf.py 1163-1383): `defaultEnv`, `envWithName`, `envForNode`;
+* `FlowIRConcrete.instance` flattening of the environments of the selected platform into the document a
+  non-primitive (replicated) configuration reads (flowir.py 5262-5270): `instEnvs` (as repaired by
+  fixes/C17-instance-environment-layering.diff; `instEnvsOld` is the code before the repair);
+* sequences of calls on one configuration object: `Conf`, `Call`, `step`, `runCalls`;
 * `string.Template.safe_substitute` (`expand_vars`, flowir.py 778) and `os.path.expandvars` as
   tokenisers (`tokT`, `tokE`) followed by `render` with a lookup function.
 
@@ -157,6 +161,48 @@ def getEnv (e : Envs) (name plat : S) : Except Err Dict :=
     | .error _, .ok d => .ok (dupdate [] d)
     | .error x, .error _ => .error x
 
+/-! ## the instance document of a platform (`FlowIRConcrete.instance`, used by `replicate()`)
+
+A configuration that is not primitive (every experiment that runs) does not read the package document: it
+reads the document `instance(platform)` produces, in which the environments of the selected platform are
+flattened into the `default` platform (flowir.py 5262-5270, 5420-5422) and the selected platform is left with
+no environment of its own (`configure_platform`). -/
+
+/-- one environment name of the selected platform, *as repaired*
+(fixes/C17-instance-environment-layering.diff):
+`layered = dict(environments.get(n) or {}); layered.update(platform_environments[n] or {}); environments[n] = layered`.
+Every name is visited once, so `environments.get(n)` is the default platform's environment `d[n]`. -/
+def layerStep (d p : List (S × Dict)) (acc : List (S × Dict)) (n : S) : List (S × Dict) :=
+  dset acc n (dupdate (dupdate [] ((dget d n).getD [])) ((dget p n).getD []))
+
+/-- environments of the `default` platform in `instance(plat)`, as repaired: key-wise layering -/
+def flatEnvs (e : Envs) (plat : S) : List (S × Dict) :=
+  let d := if plat == sDefault then [] else (dget e sDefault).getD []
+  let p := (dget e plat).getD []
+  (keys p).foldl (layerStep d p) d
+
+/-- the code before the repair: `environments = default_environments; environments.update(platform_environments)`
+— an environment of the platform *replaces* the same-named environment of the default platform
+(kept for `Witness/C17.lean`) -/
+def flatEnvsOld (e : Envs) (plat : S) : List (S × Dict) :=
+  let d := if plat == sDefault then [] else (dget e sDefault).getD []
+  let p := (dget e plat).getD []
+  dupdate d p
+
+/-- `environments:` of the document a non-primitive configuration reads -/
+def instEnvs (e : Envs) (plat : S) : Envs :=
+  if plat == sDefault then [(sDefault, flatEnvs e plat)] else [(sDefault, flatEnvs e plat), (plat, [])]
+
+def instEnvsOld (e : Envs) (plat : S) : Envs :=
+  if plat == sDefault then [(sDefault, flatEnvsOld e plat)] else [(sDefault, flatEnvsOld e plat), (plat, [])]
+
+/-- the environments a configuration object looks names up in: the package's (primitive), the instance
+document's (replicated), or — for a configuration loaded from an instance directory (`is_instance=True`, the
+restart path) — the instance document of the stored instance document (`flowir_instance.yaml` is
+`instance(platform)` of the package, `replicate()` applies `instance(platform)` to it again) -/
+def confEnvs (e : Envs) (plat : S) (primitive reload : Bool) : Envs :=
+  if primitive then e else if reload then instEnvs (instEnvs e plat) plat else instEnvs e plat
+
 /-- `defaultEnvironment()`: the environment called `environment`, else the whole launch environment -/
 def defaultEnv (e : Envs) (plat : S) (launch : Dict) : Dict :=
   match getEnv e sEnvironment plat with
@@ -244,5 +290,50 @@ def envForNode (sys : Dict) (e : Envs) (plat : S) (launch : Dict) (name : Option
   match envWithName sys e plat launch name true true with
   | .error x => .error x
   | .ok env => .ok (if interp then addInterp launch env else env)
+
+/-! ## one configuration object, many calls
+
+A `FlowIRExperimentConfiguration` lives as long as the experiment and builds the environment of every
+component (`environmentForNode`), of named environments (`environmentWithName`) and the default environment
+(`defaultEnvironment`) on demand, in any order; callers own the dictionaries they get back and modify them
+(`environmentForNode` itself adds the interpreter variables in place).  `Conf` is the state of the object the
+construction reads: system variables, environments (of the document it reads), platform.  Every dictionary the
+code hands out is a fresh copy (`(self._system_vars or {}).copy()`, `deep_copy` in `get_environments`,
+`copy.deepcopy(os.environ)`), so no call — and nothing a caller does to an answer — changes that state:
+`step` returns it unchanged.  The launch environment is fixed for the session. -/
+
+structure Conf where
+  sys : Dict
+  envs : Envs
+  plat : S
+
+inductive Call where
+  /-- `environmentForNode` of a component with `command.environment = name`, interpreter iff `interp` -/
+  | node (name : Option S) (interp : Bool)
+  /-- `environmentWithName(name, expand, remove_defaults_key)` -/
+  | withName (name : Option S) (expand removeKey : Bool)
+  /-- `defaultEnvironment()` -/
+  | dflt
+  /-- the caller rewrites a dictionary it was handed earlier (`d.update(edits)`, `d.clear()` …) -/
+  | mutate (edits : Dict)
+
+inductive Ans where
+  | env (r : Except Err Dict)
+  | unit
+
+/-- what a call answers on a configuration in state `c` -/
+def answer (launch : Dict) (c : Conf) : Call → Ans
+  | .node name interp => .env (envForNode c.sys c.envs c.plat launch name interp)
+  | .withName name expand rm => .env (envWithName c.sys c.envs c.plat launch name expand rm)
+  | .dflt => .env (.ok (defaultEnv c.envs c.plat launch))
+  | .mutate _ => .unit
+
+/-- one call: new state of the configuration object and the answer -/
+def step (launch : Dict) (c : Conf) (call : Call) : Conf × Ans := (c, answer launch c call)
+
+/-- a session: the calls are served one after the other by the same object -/
+def runCalls (launch : Dict) : Conf → List Call → List Ans
+  | _, [] => []
+  | c, call :: rest => (step launch c call).2 :: runCalls launch (step launch c call).1 rest
 
 end St4sd.Env
